@@ -284,7 +284,9 @@ class SchemaVisitor:
         """
         if not node.get("schemaLocation"):
             raise NotImplementedError("schemaLocation is required")
-        location = node.get("schemaLocation")
+        location = normalize_location(
+            self.schema.settings, node.get("schemaLocation"), self.document._base_url
+        )
 
         if location in self._includes:
             return
